@@ -160,6 +160,7 @@ structure S where
   cnt : Option Nat := none
   out : Option String := none
   doc1 : Option Doc := none
+  xshape : String := ""
   pairCap : Nat := 400
 
 def oneLine (s : String) : String := ((s.replace "\n" "⏎").take 400).toString
@@ -217,6 +218,7 @@ def evalCase (s : S) (d : Doc) : IO Unit := do
     fields := (if lcSafe m then "mlc=ok" else "mlc=viol") :: fields
   | .error e =>
     fields := s!"reject={(toString (repr e)).replace " " "_" |>.replace "\n" "_"}" :: fields
+  if s.xshape != "" then fields := s!"xshape={s.xshape}" :: fields
   IO.println s!"R {s.gen} {s.idx} {" ".intercalate fields.reverse}"
   for x in extra.reverse do IO.println x
 
@@ -244,6 +246,7 @@ partial def loop (h : IO.FS.Stream) (s : S) : IO Unit := do
   | ["CFG", tab, w, bl, ro] =>
     loop h { s with cfg := { tab := tab.toNat!, maxWidth := w.toNat!, blankUpper := bl.toNat!, reorder := ro == "1" } }
   | ["SRC", hx] => loop h { s with src := unhex hx }
+  | ["XSHAPE", id] => loop h { s with xshape := id }
   | ["COUNT", c] => loop h { s with cnt := some c.toNat! }
   | ["OUT", hx] => loop h { s with out := some (unhex hx) }
   | "TREE" :: r =>
